@@ -8,6 +8,17 @@ from pv.values import (VMap, V, VInt, VBool, VStr, VNONE, VNoneT, VTuple, VRef, 
                        OutOfSubset, fresh, fresh_name, kind_of, I, B, S)
 
 
+class _EmptyDict:
+    def __repr__(self):
+        return '{}'
+
+    def __bool__(self):
+        return False
+
+
+EMPTY_DICT = _EmptyDict()
+
+
 def lit_of(v):
     """Concrete python value of a V if it is a literal, else raises KeyError."""
     if isinstance(v, VPy):
@@ -105,6 +116,8 @@ class Evaluator:
             return self.is_none(st, o)
         if isinstance(a, VInt) and isinstance(b, VInt):
             return a.t == b.t
+        if isinstance(a, (VInt, VAny)) and isinstance(b, (VInt, VAny)):
+            return a.t == b.t          # opaque values are identified by an integer term
         if isinstance(a, VBool) and isinstance(b, VBool):
             return a.t == b.t
         if isinstance(a, VStr) and isinstance(b, VStr):
@@ -195,6 +208,14 @@ class Evaluator:
     def ev_List(self, st, e):
         items = [self.ev(st, x) for x in e.elts]
         return self.eng.new_list(st, items)
+
+    def ev_Dict(self, st, e):
+        if e.keys:
+            raise OutOfSubset('non-empty dict literal')
+        return VPy(EMPTY_DICT)
+
+    def ev_DictComp(self, st, e):
+        return self.eng.dict_comp(st, e)
 
     def ev_JoinedStr(self, st, e):
         return fresh('str', 'fstr')
